@@ -44,7 +44,7 @@ pub fn property() -> Property {
             },
             Part {
                 name: "engine_position",
-                quick: 600,
+                quick: 1_600,
                 thorough: 20_000,
                 single_shard: false, supplementary: false,
                 run: |cfg| run_part(cfg, (gen::raw_playout(24), any::<u16>(), any::<u16>(), 0..6u8, 0..8u8), |(r, cut, pick, kind, bad)| engine_pos_case(r, *cut, *pick, *kind, *bad), check_engine_position),
@@ -487,7 +487,7 @@ pub fn check_engine_position(c: &EnginePosCase, ctx: &mut Ctx) -> Result<(), Str
                 _ => {}
             }
         }
-        Wait::ThreadDied(w) => return Err(format!("{what}: {w}")),
+        Wait::ThreadDied(w, _) => return Err(format!("{what}: {w}")),
         Wait::Timeout => return Err(format!("HARNESS: watchdog at {what}")),
     }
     s.quit().map_err(|e| format!("{what}: {e}"))?;
